@@ -406,9 +406,10 @@ package rsm
 //@ modifies held(s.mu), s.snapshotIndex
 //@ ensures held(s.mu) == 0
 
-//@ func (s *StateMachine) concurrentSave [C11 C08]
+//@ func (s *StateMachine) concurrentSave [C11 C08 C05]
 //@ noframe
 //@ requires s.sm != nil && s.snapshotter != nil && s.sessions != nil && s.sm.gconcurrent && s.sm.gapplymu == ptr(s.mu)
+//@ free requires s.sessions.gmu == ptr(s.mu)
 //@ modifies held(s.mu), s.snapshotIndex, s.syncedIndex
 
 // C18: witnesses never take state machine snapshots; C11: the locked path is chosen for plain SMs
@@ -420,6 +421,7 @@ package rsm
 
 //@ func (s *StateMachine) getSSMeta [C11 C08]
 //@ trusted serialises the session table (bytes.Buffer, encoding/json, LRU cache): outside the subset; touches no lock
+//@ requires held(s.mu) != 0
 
 // ---------------------------------------------------------------- client reads vs Close of a plain state machine (C11)
 // gguard: the address of the RWMutex that serialises client reads of this user state machine with
@@ -792,3 +794,19 @@ package rsm
 //@ modifies gMarshalled
 //@ ensures as(*Session, gMarshalled).ClientID == s.ClientID && as(*Session, gMarshalled).RespondedUpTo == s.RespondedUpTo
 //@ ensures forall k RaftSeriesID :: (k in as(*Session, gMarshalled).History) == (k in s.History)
+
+// C08: after a batch [first..last] has been applied to an on-disk state machine its on-disk index is
+// the LAST index of the batch (it is what streamed snapshots advertise; a lower value makes a lagging
+// follower skip state it does not have)
+//@ func (s *StateMachine) setOnDiskIndex [C08 C11]
+//@ modifies s.onDiskIndex
+//@ ensures s.onDiskSM ==> s.onDiskIndex == last && first <= last && first > old(s.onDiskIndex) && first > s.onDiskInitIndex
+//@ ensures !s.onDiskSM ==> s.onDiskIndex == old(s.onDiskIndex)
+
+// C05/C08: the client-session table of a snapshot is serialised while the apply lock (StateMachine.mu)
+// is held, i.e. at the snapshot's index: a session image taken later, without the lock, can contain the
+// cached response of an entry the snapshot's state machine image does not contain yet
+//@ ghost field SessionManager.gmu int
+//@ func (ds *SessionManager) SaveSessions [C05 C11]
+//@ trusted serialises the LRU session table
+//@ requires held(0 + ds.gmu) != 0
